@@ -29,6 +29,13 @@ INP3 = (
     ("HAP1_SCAFFOLD_3", (("F", "HAP1_SCAFFOLD_3", 1, 12, 1),)),
     ("HAP2_SCAFFOLD_4", (("F", "HAP2_SCAFFOLD_4", 1, 14, 1),)),
 )
+INP4 = (
+    # sequence without any haplotype next to a single haplotype tag / haplotype-prefixed unplaced scaffold
+    ("scaffold_1", (("F", "scaffold_1", 1, 14, 1), ("G", 2, "scaffold"), ("F", "scaffold_1", 17, 30, 1))),
+    ("scaffold_2", (("F", "scaffold_2", 1, 20, 1),)),
+    ("scaffold_3", (("F", "scaffold_3", 1, 12, 1),)),
+    ("HAP2_SCAFFOLD_9", (("F", "HAP2_SCAFFOLD_9", 1, 3, 1),)),
+)
 BPT = 2.5
 TAGSETS = [(), ("Haplotig",), ("Contaminant",), ("FalseDuplicate",)]
 
@@ -80,6 +87,20 @@ def cases(tier):
                         scs[1] = ("Scaffold_2", (("HAP2_SCAFFOLD_2", 1, 28, flip, ("Painted", "Hap2")),))
                         scs[2] = ("Scaffold_3", (("HAP1_SCAFFOLD_3", 1, 12, flip, ctag), ("HAP2_SCAFFOLD_4", 1, 14, 1, ctag + xtag)))
                     out.append((INP3, (2.0, tuple(scs))))
+    # fourth family: untagged chromosomes plus one scaffold carrying a haplotype tag (a second curated assembly in a
+    # single-haplotype map), optionally a haplotig, optionally a haplotype-prefixed scaffold absent from the map
+    for hap in ("Hap2", "Hap1"):
+        for hp in (False, True):
+            for flip in (1, -1):
+                for third in ((), ("Haplotig",), ("Contaminant",), None):
+                    for with9 in (False, True):
+                        scs = [
+                            ("Scaffold_1", (("scaffold_1", 1, 30, 1, ("Painted",)),)),
+                            ("Scaffold_2", (("scaffold_2", 1, 20, flip, (("Painted", hap) if hp else (hap,))),)),
+                        ]
+                        if third is not None:
+                            scs.append(("Scaffold_3", (("scaffold_3", 1, 12, 1, third),)))
+                        out.append((INP4 if with9 else INP4[:3], (2.0, tuple(scs))))
     return out
 
 
@@ -115,12 +136,63 @@ def parse_agp_rows(text):
     return objs
 
 
+def file_cover(files):
+    """{input sequence name: [(start, end, file)]} from the component rows of every .agp beside a .fa"""
+    cover = {}
+    for fa in sorted(n for n in files if n.endswith(".fa")):
+        agp_name = fa[: -len(".fa")] + ".agp"
+        if agp_name in files:
+            for _, rows in parse_agp_rows(files[agp_name].decode()):
+                for r in rows:
+                    if r[0] == "F":
+                        cover.setdefault(r[1], []).append((r[2], r[3], fa))
+    return cover
+
+
+def check_files_partition(case, files, seqs, ctx):
+    """
+    across all files written, the AGP component rows cover every input residue run exactly once
+    (a file overwritten by a second assembly of the same run, or an assembly never written, shows here)
+    """
+    cover = file_cover(files)
+    fas = sorted(n for n in files if n.endswith(".fa"))
+    for name, seq in seqs.items():
+        runs = [(m.start() + 1, m.end()) for m in re.finditer(rb"[^Nn]+", seq)]
+        ivs = sorted(cover.pop(name, []))
+        merged = []
+        bad = None
+        for a, b, fa in ivs:
+            if merged and a <= merged[-1][1]:
+                bad = f"{name}:{a}-{b} in {fa} overlaps an earlier row"
+                break
+            if merged and a == merged[-1][1] + 1:
+                merged[-1][1] = b
+            else:
+                merged.append([a, b])
+        if bad is None and [tuple(m) for m in merged] != runs:
+            bad = f"{name}: rows cover {merged!r}, input residue runs are {runs!r}"
+        if bad:
+            ctx.violation("cli-files-do-not-partition-input", case, bad + f" (files {fas!r})")
+            return
+    if cover:
+        ctx.violation("cli-files-do-not-partition-input", case, f"rows name unknown sequences {sorted(cover)!r}")
+
+
 def check_outputs(case, files, seqs, ctx, validate_only=False):
     """files: {name: bytes} of the output directory"""
+    for n in sorted(files):
+        if n.endswith(".agp"):
+            try:
+                parse_agp_rows(files[n].decode())
+            except (IndexError, ValueError, KeyError, UnicodeDecodeError) as e:
+                ctx.violation("agp-unparseable/cli", case, f"{n}: {type(e).__name__}: {files[n][-200:]!r}")
+                return
     fas = sorted(n for n in files if n.endswith(".fa"))
     if not fas:
         ctx.violation("cli-no-fasta-written", case, f"{sorted(files)!r}")
         return
+    if not validate_only:
+        check_files_partition(case, files, seqs, ctx)
     for fa in fas:
         agp_name = fa[: -len(".fa")] + ".agp"
         if agp_name not in files:
@@ -154,6 +226,30 @@ def check_outputs(case, files, seqs, ctx, validate_only=False):
 def check_c09_files(case, files, pvspec, ctx):
     """file names carry the routing: haplotigs / contaminants / falseduplicates / primary.curated"""
     tags = {t for _, ps in pvspec[1] for p in ps for t in p[4]}
+    if len(case) > 2:
+        inp = pv.tuplify(case[2])
+        check_files_partition(case, files, cli.sequences_for(inp), ctx)
+        # whole-scaffold pieces in maps without Primary / Target mode: the file that holds the sequence
+        if not tags & {"Primary", "Target"}:
+            cover = file_cover(files)
+            lengths = {n: pv.scaffold_length(rows) for n, rows in inp}
+            for _, ps in pvspec[1]:
+                for p in ps:
+                    if not (p[1] == 1 and p[2] == lengths.get(p[0])):
+                        continue
+                    held = {fa for _, _, fa in cover.get(p[0], [])}
+                    destr = [t for t in ("FalseDuplicate", "Haplotig", "Contaminant") if t in p[4]]
+                    haps = [t for t in p[4] if re.fullmatch(r"Hap\d+", t)]
+                    if destr:
+                        want = {"FalseDuplicate": ".falseduplicates.", "Haplotig": "haplotigs", "Contaminant": ".contaminants."}[destr[0]]
+                    elif haps:
+                        want = "." + haps[0].lower()
+                    elif not re.match(r"(?i)hap\d+_", p[0]) and not any(re.fullmatch(r"Hap\d+", t) for _, qs in pvspec[1] for q in qs if q is not p for t in q[4] if len(qs) > 1 and p in qs):
+                        want = ".primary."
+                    else:
+                        continue
+                    if len(held) != 1 or want not in next(iter(held)):
+                        ctx.violation("cli-sequence-in-wrong-file", case, f"{p[0]} (tags {p[4]!r}) is in {sorted(held)!r}, expected one file named *{want}*")
     want = {"Haplotig": ("additional_haplotigs.curated.fa", ".haplotigs.fa"), "Contaminant": (".contaminants.fa",), "FalseDuplicate": (".falseduplicates.fa",)}
     # pieces that are whole input scaffolds cannot lose their rows to a neighbour: there the file must exist
     whole = len(case) > 2 and all(any(p[0] == n and p[1] == 1 and p[2] == pv.scaffold_length(pv.tuplify(rows)) for n, rows in case[2]) for _, ps in pvspec[1] for p in ps)
@@ -195,10 +291,15 @@ def check_c11_files(case, files, ctx):
 
 def run_one(chk, inp, pvspec, ctx, validate_only=False, extra=None, restaged=False):
     """
-    restaged: the FASTA path held an earlier version of the assembly (other lengths and gap layout) which a first
-    invocation indexed; the file is then rewritten within the same clock tick as its cache files (equal mtimes).
+    restaged: the FASTA path held an earlier, longer version of the assembly (other lengths and gap layout) which a
+    first invocation with the same --output indexed and wrote out; the FASTA is then rewritten within the same
+    clock tick as its cache files (equal mtimes) and the command is repeated (default --clobber).
+    warm-crlf: the FASTA has CRLF line ends; the command is run twice and the second run (index loaded from the cache
+    files the first wrote) is the one checked.
     """
-    case = ["cli", pv.jsonable(pvspec), pv.jsonable(inp)] + (["restaged"] if restaged else [])
+    mode = restaged if isinstance(restaged, str) else ("restaged" if restaged else None)
+    restaged = mode == "restaged"
+    case = ["cli", pv.jsonable(pvspec), pv.jsonable(inp)] + ([mode] if mode else [])
     ctx.cur = case
     ctx.evaluations += 1
     ctx.nontrivial += 1
@@ -216,8 +317,9 @@ def run_one(chk, inp, pvspec, ctx, validate_only=False, extra=None, restaged=Fal
             with open(fa, "wb") as fh:
                 for name, seq in old.items():
                     fh.write(b">" + name.encode() + b"\n" + b"ACGTNN" + seq + b"\n")
-            (d / "out0").mkdir()
-            cli.invoke_p2a(["-a", fa, "-p", d / "in" / "map.agp", "-o", d / "out0" / "x.fa"])
+            cli.invoke_p2a(["-a", fa, "-p", d / "in" / "map.agp", "-o", d / "out" / "x.fa"])
+            for p in (d / "out").iterdir():
+                os.utime(p, (1000, 1000))  # files the second run does not write again are left-overs, not its output
             if not (d / "in" / "asm.fa.fai").exists() or not (d / "in" / "asm.fa.agp").exists():
                 ctx.count("restaged_without_cache_files")
             seqs = cli.write_fasta(fa, inp, width=7)
@@ -226,6 +328,12 @@ def run_one(chk, inp, pvspec, ctx, validate_only=False, extra=None, restaged=Fal
                 if p.exists():
                     os.utime(p, ns=(mt, mt))
             ctx.count("cli_runs_restaged")
+        elif mode == "warm-crlf":
+            seqs = cli.write_fasta(fa, inp, width=7, eol=b"\r\n")
+            (d / "out0").mkdir()
+            rc0, _o, _e, _x = cli.invoke_p2a(["-a", fa, "-p", d / "in" / "map.agp", "-o", d / "out0" / "x.fa"])
+            first = cli.dir_files(d / "out0") if rc0 == 0 else None
+            ctx.count("cli_runs_warm_crlf")
         else:
             seqs = cli.write_fasta(fa, inp, width=7)
         rc, _o, err, exc = cli.invoke_p2a(["-a", d / "in" / "asm.fa", "-p", d / "in" / "map.agp", "-o", d / "out" / "x.fa"])
@@ -233,6 +341,12 @@ def run_one(chk, inp, pvspec, ctx, validate_only=False, extra=None, restaged=Fal
             ctx.count("cli_exit_nonzero")
             return None
         files = cli.dir_files(d / "out")
+        if restaged:
+            files = {k: v for k, v in files.items() if (d / "out" / k).stat().st_mtime != 1000}
+        if mode == "warm-crlf" and first is not None:
+            diff = sorted(k for k in set(files) | set(first) if files.get(k) != first.get(k) and not k.endswith(".log"))
+            if diff:
+                ctx.violation("cli-second-run-differs-from-first", case, f"{diff!r}")
         check_outputs(case, files, seqs, ctx, validate_only=validate_only)
         if extra:
             extra(case, files, pvspec, ctx)
@@ -251,6 +365,8 @@ def run_shard(chk, shard, ctx, validate_only=False, extra=None):
             run_one(chk, inp, pvspec, ctx, validate_only=validate_only, extra=extra)
             if (i // chunks) % 6 == 0:
                 run_one(chk, inp, pvspec, ctx, validate_only=validate_only, extra=extra, restaged=True)
+            if (i // chunks) % 6 == 3:
+                run_one(chk, inp, pvspec, ctx, validate_only=validate_only, extra=extra, restaged="warm-crlf")
     ctx.count("cli_runs", sum(1 for i in range(len(cs)) if i % chunks == chunk))
     if chunk == 0 and cs:
         ctx.sample({"cli": "pretext-to-asm -a asm.fa -p map.agp -o x.fa", "pretext": pv.jsonable(cs[0][1]), "input": pv.jsonable(cs[0][0])})
@@ -259,4 +375,4 @@ def run_shard(chk, shard, ctx, validate_only=False, extra=None):
 def replay(chk, case, ctx, validate_only=False, extra=None):
     _, pvspec = case[:2]
     inp = pv.tuplify(case[2]) if len(case) > 2 else INP
-    run_one(chk, inp, (pvspec[0], pv.tuplify(pvspec[1])), ctx, validate_only=validate_only, extra=extra, restaged=len(case) > 3 and case[3] == "restaged")
+    run_one(chk, inp, (pvspec[0], pv.tuplify(pvspec[1])), ctx, validate_only=validate_only, extra=extra, restaged=case[3] if len(case) > 3 else False)
